@@ -485,8 +485,10 @@ def run_impl(ctx, impl, lines, oracle, what):
         return None
     if rc != 0 or len(outs) != len(lines):
         k = min(len(outs), len(lines) - 1)
-        oracle.fail("c34:crash", "harness crashed during %s (rc=%s): %s" % (what, rc, err[-300:]),
-                    {"line": lines[k][:4000], "last_output": outs[-1][:300] if outs else None})
+        mk = max([i for i in range(k + 1) if lines[i].startswith("model ")] or [0])
+        oracle.fail("c34:crash", "harness crashed during %s (rc=%s) on `%s`: %s" % (what, rc, lines[k][:80], err[-300:]),
+                    {"model_line": lines[mk][:6000], "line": lines[k][:4000], "last_output": outs[-1][:300] if outs else None,
+                     "replay": "printf '<model_line>\\n<line>\\n' | <c34_name harness>"})
         return None
     return outs
 
@@ -586,7 +588,7 @@ def run(ctx):
 
     ctx.directed_search = directed
     if impl:
-        nmodels = 700 if thorough else 70
+        nmodels = 2500 if thorough else 70
         specs = [gen_spec(rng, enum, ctx.tier, kind="alldistinct"), gen_spec(rng, enum, ctx.tier, kind="all"),
                  gen_spec(rng, enum, ctx.tier, kind="empty")]
         specs += [gen_spec(rng, enum, ctx.tier) for _ in range(nmodels)]
